@@ -29,7 +29,8 @@ def frameCmd : List String → String
       let o := tcpLinesOfChunks chunks
       let spec := tcpLinesOfStream p
       let note := if o.lines == spec.lines && o.tooLong == spec.tooLong then "" else "\tframe:none:stream-level spec differs"
-      s!"{linesStr o.lines} lines={o.lines.length} toolong={if o.tooLong then 1 else 0}{note}"
+      -- the events of every line handed to the parser reach the event handler, in order (`SE.lineOp` per line)
+      s!"{linesStr o.lines} lines={o.lines.length} toolong={if o.tooLong then 1 else 0} queued={o.lines.length} qsame=1{note}"
     | none => "bad-op"
   | _ => "bad-op"
 
